@@ -123,8 +123,16 @@ def rename_map(names, how, rng):
 def _work(args):
     seed, k, prop = args
     rng = random.Random(f'{seed}:{prop}:{k}')
-    fam = rng.choice(['synth', 'synth', 'crop', 'split', 'chain', 'exact', 'degenerate'])
-    rows, prms, meta = pipecheck.gen_scene(seed, k, fam)
+    fam = rng.choice(['synth', 'synth', 'crop', 'split', 'chain', 'exact', 'degenerate'] + (['sync', 'sync', 'sync'] if prop == 'C16' else []))
+    if fam == 'sync':
+        # several ceilometers on the same time grid, different heights inside one layer, look-back cutting a time step
+        nc = rng.choice([2, 3])
+        nt = rng.choice([15, 30, 45])
+        rows = [(str(c), -900.0 + 30.0 * i, float(1500 + 40 * c + (i * 7) % 25 + rng.choice([0, 13])), 1)
+                for i in range(nt) for c in range(nc)]
+        prms = {'BASE_LVL_LOOKBACK_PERC': rng.choice([33, 10, 7, 61]), 'BASE_LVL_HEIGHT_PERC': rng.choice([0, 5, 50, 100])}
+    else:
+        rows, prms, meta = pipecheck.gen_scene(seed, k, fam)
     if prop == 'C16' and rng.random() < 0.6:
         names = sorted({r[0] for r in rows})
         prms = dict(prms)
